@@ -6,6 +6,8 @@ Line protocol for C20:
 
   build <evs>                     → the mirror builder's forest `(ty off end child…) …` | `_`
   buildfile <fileTy> <n> <evs>    → root of `builder.build()` with a File node | `none`
+  buildfile2 <fileTy> <n> <evs>   → the same for the repaired `build()` (File adopts every root); the harness
+                                    picks the op by probing the real builder at start-up
   nest <n> <evs>                  → `nested` | `not-nested`   (the predicate `WellNested n evs` of Props/C20)
   hyp <xtables…> <toks> <endOff>  → `ok` | `bad-input` | `bad-reports` (hypotheses `InputWF`, `XWF` of the
                                     nesting theorem, evaluated on a real table / token stream)
@@ -55,6 +57,9 @@ def handleCase (args : List String) : Option String :=
     some (match buildFile ty n evs with
       | some t => t.show
       | none => "none")
+  | ["buildfile2", ty, n, evs] => do
+    let ty ← parseInt? ty; let n ← parseNat? n; let evs ← parseEvs evs
+    some (buildFileAll ty n evs).show
   | ["nest", n, evs] => do
     let n ← parseNat? n; let evs ← parseEvs evs
     some (nestStr n evs)
@@ -96,6 +101,11 @@ def judge (answer case : List String) : Option String :=
       | none => "none"
     if decide (WellNested n evs) && " ".intercalate answer != want then
       some "violates: well-nested stream, tree differs from the unique tree with every node under its smallest container"
+    else some "holds"
+  | ["buildfile2", ty, n, evs] => do
+    let ty ← parseInt? ty; let n ← parseNat? n; let evs ← parseEvs evs
+    if decide (WellNested n evs) && " ".intercalate answer != (buildFileAll ty n evs).show then
+      some "violates: well-nested stream, tree differs from the File node over the unique forest with every node under its smallest container"
     else some "holds"
   | "xrun" :: rest =>
     match rest.getLast? with
